@@ -689,19 +689,8 @@ theorem load_spec (s : Schema) (l : Loaded) (h : load s = some l) :
 /-! ### emission -/
 
 theorem findGroup_mem (occs : List (Nat × GSpec)) (t : Nat) (k : W) (e : CGEntry) (h : findGroup (buildMap occs) t k = some e) :
-    (t, e.spec) ∈ occs := by
-  have hs : findSpec (buildMap occs) t k = some e.spec := by simp [findSpec, h]
-  rw [findSpec_buildMap] at hs
-  cases hf : occs.find? (fun o => decide (o.1 = t ∧ groupHash o.2 = k)) with
-  | none => rw [hf] at hs; simp at hs
-  | some o =>
-    rw [hf] at hs
-    simp only [Option.map_some, Option.some.injEq] at hs
-    have hm := List.mem_of_find?_eq_some hf
-    have hp := List.find?_some hf
-    simp only [decide_eq_true_eq] at hp
-    have : o = (t, e.spec) := by cases o; simp only at hp hs; simp [hp.1, hs]
-    rw [← this]; exact hm
+    (t, e.spec) ∈ occs :=
+  findSpec_buildMap_mem occs t k e.spec (by simp [findSpec, h])
 
 theorem optMapGroups_forall (f : Nat → GSpec → Option GSpec) : ∀ (gs r : List (Nat × GSpec)), optMapGroups f gs = some r →
     ∀ x ∈ r, ∃ g ∈ gs, x.1 = g.1 ∧ f g.1 g.2 = some x.2
@@ -727,7 +716,7 @@ theorem resolve_levels (occs : List (Nat × GSpec)) (P : List Trait → Prop) (h
   | 0, _, _, _, h => by simp [resolve] at h
   | fuel + 1, t, s, r, h => by
     simp only [resolve] at h
-    cases hf : findGroup (buildMap occs) t (groupHash s) with
+    cases hf : findGroup (buildMap occs) t (probeKey (buildMap occs) t s) with
     | none => simp [hf] at h
     | some e =>
       simp only [hf, Option.map_eq_some_iff] at h
